@@ -320,7 +320,8 @@ def run(ctx):
         consts = {"Bases": '{%s, {"a", "b", "d"}, {"a", "b"}, {"d", "da"}}' % FULL, "MaxSide": 3, "MaxPair": 2, "MaxSum": 3}
         configs = [(dict(consts, Bases="{%s}" % b, Flavours='{"%s"}' % fl, CrossCheck="FALSE"),
                     WITNESSES[fl] if b == FULL else ())
-                   for b in (FULL, '{"a", "b", "d"}', '{"a", "b"}', '{"d", "da"}') for fl in ("ids", "paths")]
+                   for b in (FULL, '{"a", "b", "d"}', '{"a", "b"}', '{"d", "da"}') for fl in ("ids", "paths")
+                   if not (fl == "paths" and b == '{"a", "b", "d"}')]        # git has no empty directories
         # the constructive enumeration of the generator against brute force over all pairs of edit sets (small bounds)
         table_common.generate(ctx, "MergeLawsGen", {"Bases": "{%s}" % FULL, "MaxSide": 2, "MaxPair": 1, "MaxSum": 2,
                                                     "Flavours": both, "CrossCheck": "TRUE"}, workers=4, timeout=1500,
